@@ -63,6 +63,7 @@ Step ==
   \/ Ev("Truncate") /\ Truncate(Arg(1), Arg(2))
   \/ Ev("Chmod") /\ Chmod(Arg(1), Arg(2))
   \/ Ev("Mtime") /\ Mtime(Arg(1), Arg(2))
+  \/ Ev("Wstat") /\ Wstat(Arg(1), Arg(2), Arg(3), Arg(4), Arg(5))
   \/ Ev("Write") /\ Write(Arg(1), Arg(2), Arg(3))
   \/ Ev("Clunk") /\ Clunk(Arg(1))
 
